@@ -153,12 +153,20 @@ def gen_groups(rng, count, tag, kinds=("fgroup", "fgroup_keyed", "sgroup", "sgro
         cap = rng.choice([0, 0, 0, 1, 2, 3, 5])
         ops = []
         nm = 0
+        extborn = set()
         for _ in range(rng.randint(2, maxops)):
             r = rng.random()
             if r < 0.28:
                 sc = fscript(rng, max(nm, 1), nm, False, panic) if comb.startswith("f") else sscript(rng, max(nm, 1), nm, panic)
                 ops.append(f"ins({sc})")
                 nm += 1
+            elif r < 0.31 and comb == "fgroup":
+                # Extend::extend (FutureGroup only); the keys of these members stay unknown, so rm/has never name them
+                k = rng.randint(1, 3)
+                ops.append("ext(" + ";".join(fscript(rng, max(nm, 1), nm + j, False, panic) for j in range(k)) + ")")
+                for j in range(k):
+                    extborn.add(nm + j)
+                nm += k
             elif r < 0.62:
                 ops.append("p")
             elif r < 0.67:
@@ -166,13 +174,17 @@ def gen_groups(rng, count, tag, kinds=("fgroup", "fgroup_keyed", "sgroup", "sgro
             elif r < 0.80 and nm > 0:
                 ops.append(f"f{rng.randrange(nm)}.{rng.randrange(3)}")
             elif r < 0.86 and nm > 0:
-                ops.append(f"rm{rng.randrange(nm)}")
+                cand = [m for m in range(nm) if m not in extborn]
+                if cand:
+                    ops.append(f"rm{rng.choice(cand)}")
             elif r < 0.89:
                 ops.append(f"rsv{rng.randrange(6)}")
             elif r < 0.92:
                 ops.append("len")
             elif r < 0.95 and nm > 0:
-                ops.append(f"has{rng.randrange(nm)}")
+                cand = [m for m in range(nm) if m not in extborn]
+                if cand:
+                    ops.append(f"has{rng.choice(cand)}")
             elif r < 0.97:
                 ops.append("cap")
             elif r < 0.98:
